@@ -59,14 +59,14 @@ def txDec (K : Bytes → Option Bytes) (H : Bytes → Bytes) (bs : Bytes) : Exce
   match txUnsignedTy.dec K bs with
   | .error e => .error e
   | .ok (u, r1) =>
-    let rawUnsigned := bs.take (bs.length - r1.length)
-    let hash := H (H rawUnsigned)
     match sigsTy.dec K r1 with
     | .error e => .error e
     | .ok (sigs, r2) =>
       let lenAll := bs.length - r2.length
       if lenAll > MAX_TX_SIZE then .error .reject
-      else .ok { val := (u, sigs), hash := hash, raw := bs.take lenAll, rest := r2 }
+      else
+        let rawUnsigned := bs.take (bs.length - r1.length)   -- the bytes the unsigned part consumed
+        .ok { val := (u, sigs), hash := H (H rawUnsigned), raw := bs.take lenAll, rest := r2 }
 
 /-- `TransactionFromRawBytes` -/
 def txFromRawBytes (K : Bytes → Option Bytes) (H : Bytes → Bytes) (raw : Bytes) : Except Err TxRes :=
